@@ -17,6 +17,8 @@ mod c05;
 mod prog;
 mod c03;
 mod c17;
+mod c04;
+mod c04t;
 
 fn main() {
     let args: Vec<String> = std::env::args().collect();
@@ -51,6 +53,7 @@ fn main() {
         "C05" => c05::run(&mut sink, thorough, seed),
         "C03" => c03::run(&mut sink, thorough, seed),
         "C17" => c17::run(&mut sink, thorough, seed),
+        "C04" => c04::run(&mut sink, thorough, seed),
         "replay" => { /* replay lines are `op args…` on stdin */
             let mut s = String::new();
             use std::io::Read;
@@ -83,6 +86,7 @@ fn replay(sink: &mut common::Sink, toks: &[&str]) {
         "esc" | "escbufs" | "hex4" | "hex4s" | "scan" => c05::replay(sink, toks),
         "serc" | "serp" | "serbufs" | "serbufx" | "disp" => c03::replay(sink, toks),
         "maphist" | "mapeqh" | "mapeq" | "maphash" | "mapsort" => c17::replay(sink, toks),
+        "rtv" | "rtt" => c04::replay(sink, toks),
         _ => eprintln!("cannot replay op {}", toks[0]),
     }
 }
